@@ -5,6 +5,11 @@ import json, subprocess, os
 ALL = ["C%02d" % i for i in range(1, 21)]
 # id -> (category, technique, level text, level note, design ref)
 CHECKS = {
+ "C16": ("exploration",
+  "exhaustive enumeration of call chains x failing operation kinds x layouts placing every position-table delta (line, column, pc) on each side of each saturation boundary, against the renderer's recorded token positions",
+  "For every enumerated case every frame of EvalError.CallStack names the right function at exactly the line and column where the call's '(' or the failing operator token was written, built-in frames are in place and Backtrace() lists the same frames in order. All combinations of the column/line boundary sets for the two rows of an operation, pc fillers, link layouts and the stated extremes are covered.",
+  "The renderer's position bookkeeping is the oracle (it counts runes per line as syntax.Position does); argument-binding failures are not position obligations; chains beyond depth 8 and layouts outside the boundary sets are outside the bound.",
+  "DESIGN.md §3 C16"),
  "C20": ("model_checking",
   "exhaustive enumeration of (field kind x boundary value x position) assignments against an acceptance table, plus explicit-state BFS over construct/assign/alias/copy/freeze/mutate histories on real messages (path replay, canonical object-graph state with storage identities)",
   "Every scalar kind x value x position case either stores exactly the given value (read back, binary and text round trip) or fails with an error, never a panic; every history up to the stated depth over 2 and 3 message handles keeps frozen storage unchanged, self-assignment lossless and stored values well-typed. Known aliasing defect (shallow copy / sub-message aliasing under separate frozen flags) is recorded in known_findings.json.",
